@@ -826,6 +826,8 @@ def rule_U3(ctx) -> None:
         if p.outcome != "return" or p.value is None:
             continue
         t = size_term(p.value)
+        if t == ("sum", (("len", N("self")),)):
+            continue  # the sizer is defined through the writer (len(bytes(self)))
         if ("len", uf) not in t[1]:
             bad.append(p)
     if bad:
